@@ -55,6 +55,8 @@ Max2(x, y) == IF x > y THEN x ELSE y
 (* Walks: footprint accumulation *)
 \* tr: touches <<lo, hi, base>> in program order; rq: required extents <<lo, hi>>
 W0 == [tr |-> <<>>, rq |-> <<>>, dead |-> FALSE, far |-> FALSE]
+\* the touches of w with the required extents of w2 (a walk that continues w)
+ReqFrom(w, w2) == [tr |-> w.tr, rq |-> w2.rq, dead |-> w.dead, far |-> w.far \/ w2.far]
 
 \* an access of len bytes at `at` through a view (cursor) starting at base,
 \* for which the documentation makes the caller provide [rlo, rhi)
@@ -131,13 +133,21 @@ NavSteps(b, w, gli, ea, bl, k) ==
 \*   m.g1() -> begin(), ++ (ip[1]-1 times), deref -> .g2() -> ...
 \* [w, a (block start), bl (wire block length carried by an entry), base, ga]
 RECURSIVE NavInst(_, _, _)
-LevelBLW(b, w, li, inst) == IF li = 1 THEN RootBL(b, w) ELSE [w |-> w, v |-> inst.bl]
+\* the wire block length of a level: the message reads it from its header, an
+\* entry carries the value its group's begin() read from the dimension header -
+\* the footprint records that read where the value is first *used* (a result
+\* that does not depend on it does not depend on those bytes)
+LevelBLW(b, w, li, inst) == IF li = 1 THEN RootBL(b, w) ELSE DimBL(b, w, li, inst.ga)
 NavInst(b, li, ip) ==
   IF li = 1 THEN [w |-> W0, a |-> V0 + HSize, bl |-> -1, base |-> V0, ga |-> -1]
   ELSE LET p == NavInst(b, LParent[li], Front(ip))
            pbl == LevelBLW(b, p.w, LParent[li], p)
            rg == WGroups(b, pbl.w, LParent[li], 1, LOrd[li] - 1, p.a + pbl.v)
-           hb == DimBL(b, rg.w, li, rg.e)
+           \* begin(): the dimension header as a whole is required; its
+           \* blockLength matters from the first increment on
+           w0 == ReqOnly(b, rg.w, rg.e, rg.e + LDimSize[li])
+           hb == IF Last(ip) > 1 THEN DimBL(b, w0, li, rg.e)
+                 ELSE [w |-> w0, v |-> IF w0.dead THEN 0 ELSE Val(b, rg.e + LDimOff[li][1], LDimW[li][1])]
            st == NavSteps(b, hb.w, li, rg.e + LDimSize[li], hb.v, Last(ip) - 1)
        IN [w |-> st.w, a |-> st.e, bl |-> hb.v, base |-> st.e, ga |-> rg.e]
 
@@ -309,9 +319,9 @@ GroupOps(b, li, ip, inst, g) ==
        O("group", "g_resize", <<1>>, rn.w, TRUE),
        O("group", "g_clear", <<>>, rn.w, TRUE),
        O("size-bytes", "g_size_bytes", <<>>, WGroupEnd(b, G.w, gli, ga).w, TRUE),
-       O("group", "g_begin", <<>>, rb.w, TRUE),
+       O("group", "g_begin", <<>>, wdim, TRUE),
        O("group", "g_end", <<>>, IF flat THEN rbn.w ELSE rn.w, TRUE)>>
-     \o (IF N >= 1 /\ N < Big THEN <<O("group", "g_front", <<>>, rb.w, TRUE)>> ELSE <<>>)
+     \o (IF N >= 1 /\ N < Big THEN <<O("group", "g_front", <<>>, wdim, TRUE)>> ELSE <<>>)
      \o (IF flat /\ N >= 1 /\ N < Big
          THEN <<O("group", "g_back", <<>>, rbn.w, TRUE),
                 O("group", "g_at", <<0>>, rb.w, TRUE),
@@ -322,8 +332,12 @@ GroupOps(b, li, ip, inst, g) ==
                 O("iterator", "g_dec", <<N>>, rbn.w, TRUE)>>
          ELSE <<>>)
      \o (IF ~flat /\ N < Big
-         THEN <<O("iterator", "g_walk", <<>>,
-                  NavSteps(b, rbn.w, gli, first, BLv, N).w, TRUE)>>
+         THEN \* for(e : g) use(addressof(e)): the addresses of entries 2..N depend on the
+              \* sizes of entries 1..N-1; stepping over the last one is only required
+              <<O("iterator", "g_walk", <<>>,
+                  LET w1 == IF N >= 2 THEN rbn.w ELSE ReqOnly(b, rn.w, ga, ga + LDimSize[gli])
+                  IN ReqFrom(NavSteps(b, w1, gli, first, BLv, IF N >= 1 THEN N - 1 ELSE 0).w,
+                             NavSteps(b, w1, gli, first, BLv, N).w), TRUE)>>
          ELSE <<>>)
 
 \* ---- data: the d-th <data> of instance inst
@@ -387,7 +401,6 @@ DataOps(b, li, ip, inst, d) ==
 
 \* ---- cursor forms, from the positions the documentation requires
 \* wrapper ids: 0 plain, 1 init, 2 dont_move, 3 init_dont_move, 4 skip
-ReqFrom(w, w2) == [tr |-> w.tr, rq |-> w2.rq, dead |-> w.dead, far |-> w.far]
 CursorOps_(b, li, ip, inst) ==
   LET F == LFields[li]
       blv == IF li = 1 THEN Val(b, V0 + HBlOff, HBlW) ELSE inst.bl
@@ -504,10 +517,11 @@ HostileAll(s) ==
 Image(s) == Overlay(Region(s), MsgImage(MI, s), V0)
 Full(s) == Len(MsgImage(MI, s))
 
-\* sampled view lengths: 0, 1, every footprint boundary -1/0/+1, full-1, full
+\* sampled view lengths: 0, 1, full-1, full and, for every footprint, the lengths
+\* that put its end just outside / just inside the view
 SampleNs(t, full) ==
   ({0, 1, full - 1, full}
-   \cup UNION {{t.bnd[i].tlo - V0 + d, t.bnd[i].thi - V0 + d, t.bnd[i].rhi - V0 + d} : i \in 1 .. Len(t.bnd), d \in {-1, 0, 1}})
+   \cup UNION {{t.bnd[i].thi - V0 + d, t.bnd[i].rhi - V0 + d} : i \in 1 .. Len(t.bnd), d \in {-1, 0}})
   \cap 0 .. full
 
 KInit ==
